@@ -83,7 +83,7 @@ def _make_network(rng, sym, shape, kind, dtype, dangling, maxd, sparse=0.3):
         lg = [legs[t][o] for o in order]
         ix = [ixs[t][o] for o in order]
         desc = gen.rand_array(rng, sym, len(ix), kind, ixs=ix, dtype=dtype, sparse=sparse,
-                              phases=0.3 if kind == "fermionic" else 0.0, oddpos=10 * (t + 1) + rng.randint(0, 5),
+                              phases=0.3 if kind == "fermionic" else 0.0, oddpos=(10 * (t + 1) + rng.randint(0, 5)) if (t or rng.random() < 0.7) else 0,
                               start=1 + 3 * t, cls="dynamic" if sym == "Z4" else "static")
         desc["fill"]["mod"] = 5
         tensors.append((desc, lg))
